@@ -35,13 +35,30 @@ def main():
     try:
         mod.run(ctx)
         rc = ctx.finish()
+    except engine.JobFailed as e:
+        if e.info["from_library"]:
+            # an exception that came out of gaftools itself (a library call the check makes on a valid input): that is what
+            # the implementation did, and it is a violation - the property demands an answer on that input
+            ctx.violation("raised_inside_gaftools:" + e.info["exc"].split(":")[0], {"exception": e.info["exc"], "where": e.info["where"], "job": e.info["job"]})
+            rc = ctx.finish()
+        else:
+            print(f"MACHINERY-FAILURE property={a.prop}: job failed: {e.info['exc']} at {e.info['where']}", file=sys.stderr)
+            rc = 2
     except engine.MachineryError as e:
         print(f"MACHINERY-FAILURE property={a.prop}: {e}", file=sys.stderr)
         rc = 2
-    except Exception:
-        traceback.print_exc()
-        print(f"MACHINERY-FAILURE property={a.prop}", file=sys.stderr)
-        rc = 2
+    except Exception as e:
+        frames = traceback.extract_tb(e.__traceback__)
+        lib = os.path.join(engine.REPO, "gaftools") + os.sep
+        if any(os.path.abspath(f.filename).startswith(lib) for f in frames) and not isinstance(e, AssertionError.__mro__[0]) or \
+                (isinstance(e, AssertionError) and any(os.path.abspath(f.filename).startswith(lib) for f in frames[-1:])):
+            ctx.violation("raised_inside_gaftools:" + type(e).__name__, {"exception": f"{type(e).__name__}: {e}"[:200],
+                                                                          "where": [f"{os.path.basename(f.filename)}:{f.lineno}:{f.name}" for f in frames][-6:]})
+            rc = ctx.finish()
+        else:
+            traceback.print_exc()
+            print(f"MACHINERY-FAILURE property={a.prop}", file=sys.stderr)
+            rc = 2
     sys.exit(rc)
 
 
